@@ -264,3 +264,11 @@ Definition prefixed_hex_decode (s : str) : option bytes :=
   | _ => None
   end.
 
+(** ** [arbitrary::Unstructured] (third-party; behaviour assumed, tied by the C20 correspondence): the state is the
+    entropy that is left.  [fill_buffer(buf)] copies what is available and zero-fills the rest (it never fails);
+    [usize::arbitrary] reads eight bytes little-endian the same way. *)
+Definition fill_buffer (data : bytes) (n : N) : bytes * bytes :=
+  let k := N.min n (len data) in
+  (take k data ++ repeat_n 0 (n - k), drop k data).
+Definition arbitrary_usize (data : bytes) : N * bytes :=
+  let p := fill_buffer data 8 in (le_val (fst p), snd p).
